@@ -180,4 +180,32 @@ PROPS = {
         "probes_expected": {"quick": ["walk-permuted-nontrivially", "digest-failed-under-fault", "mutation-changed-digest", "mutation-left-digest", "cache-backend-verified", "dependency-change-propagated"],
                             "thorough": ["walk-permuted-nontrivially", "digest-failed-under-fault", "mutation-changed-digest", "mutation-left-digest", "cache-backend-verified", "dependency-change-propagated"]},
     },
+    "C17": {
+        "engine": "gensim",
+        "level": "exploration",
+        "runs": {"quick": 800, "thorough": 100000},
+        "max_wall_s": {"quick": 0, "thorough": 1500},
+        "shrink_s": {"quick": 45, "thorough": 300},
+        "recheck_every": 25,
+        "min_chunk": 8,
+        "rule": ("one evaluation = one bufgen.Generator.Generate run end to end: a generated image (shared imports between directories, WKT imports, "
+                 "module and path targeting), a tape-drawn buf.gen.yaml (v1 or v2; 1-4 local plugins; strategy directory/all; include_imports; "
+                 "include_wkt; shared or distinct out directories) and in-process simulated plugins that record every request and answer from a "
+                 "script (one file per file to generate; an insertion point into a file the previous plugin produced, or into a file nobody "
+                 "produced; a duplicate of another plugin's path; a name that escapes the out directory; an error); start and completion of every "
+                 "plugin invocation and every write of the flush are scheduling points released in a seeded order; non-trivial = the scheduler had "
+                 "a real choice; distinct = distinct released-operation sequence"),
+        "real": ["bufgen.Generator (execPlugins, generateCode)", "bufimage.ImageByDir / ImagesToCodeGeneratorRequests", "bufprotopluginexec.Generator (handler seam)",
+                 "bufprotoplugin.Generator and ResponseWriter, ValidatePluginResponses", "bufprotopluginos.ResponseWriter", "bufconfig buf.gen.yaml reader",
+                 "storageos (real output directories)", "thread.Parallelize"],
+        "stubbed": ["plugins: in-process protoplugin.Handler values in place of exec'd binaries (tag-guarded seam in bufprotopluginexec.NewHandler)", "disk interposition for the flush"],
+        "assumptions": COMMON_ASSUMPTIONS + [
+            "only the multi-party / concurrent clauses are decided by simulation; request construction is pure and rides along as workload oracles",
+            "type filters (types / exclude_types) and source-retention option stripping are not exercised",
+            "simulated plugins never produce the same name from two requests of ONE plugin: buf merges those in completion order (first wins, with a warning), which the property does not speak about",
+            "whether a file keeps its final newline after an insertion point is applied is not checked",
+        ],
+        "probes_expected": {"quick": ["plugin-completion-reordered", "insertion-point-applied", "generate-failed-as-expected"],
+                            "thorough": ["plugin-completion-reordered", "insertion-point-applied", "generate-failed-as-expected"]},
+    },
 }
